@@ -16,6 +16,10 @@ PID = "C10"
 STRATS = ["simple", "simplepiv", "simplelu", "simplelupiv", "blocklu", "blocklupiv", "ut", "lut"]
 PIV = {"simplepiv", "simplelupiv", "blocklupiv"}
 LU = {"simplelu", "simplelupiv", "blocklu", "blocklupiv"}
+# ways of requesting the inverse that are compared with the model of a base strategy (harness/inverse_calls.h)
+VARIANT_BASE = {"lazy": "simple", "lazyadd": "simple", "lazysub": "simple", "lazymul": "simple", "lazymull": "simple",
+                "expr": "simple", "utexpr": "ut", "lutexpr": "lut", "lazymuleq": "simple"}
+def base_of(s): return VARIANT_BASE.get(s, s)
 THEOREM = "Fastor.C10.inverse_correct"
 MODEL = "FastorModel.Model.Inverse"
 
@@ -125,6 +129,37 @@ def permute_rows(B, pairs):
     for (p, q) in pairs: A[p], A[q] = B[q], B[p]
     return A
 
+def sorted_cycles(n, rng):
+    """disjoint cycles c0<c1<...<ck -> p(c_t)=c_{t+1}, p(c_k)=c0 (length >= 3 when n allows) as a list p, plus the
+    entries (c_{k-1},c_k) that must carry the largest off-diagonal magnitude for pivot_inplace to return p"""
+    p = list(range(n)); forced = []
+    idx = list(range(n)); rng.shuffle(idx)
+    pos = 0
+    while n - pos >= 2:
+        k = min(n - pos, rng.randint(3, 5))
+        c = sorted(idx[pos:pos + k]); pos += k
+        for t in range(len(c) - 1): p[c[t]] = c[t + 1]
+        p[c[-1]] = c[0]
+        forced.append((c[-2], c[-1]))
+        if rng.random() < 0.5: break
+    return p, forced
+
+def apply_rows(B, p):
+    """A with A(p(i),:) = B(i,:)  (so that apply_pivot(A,p) = B)"""
+    A = [None] * len(B)
+    for i, r in enumerate(p): A[r] = B[i][:]
+    return A
+
+def max_cycle(pstr):
+    try: p = [int(x) for x in pstr.split(",")]
+    except ValueError: return 0
+    seen = set(); best = 0
+    for i in range(len(p)):
+        l = 0; j = i
+        while j not in seen and j < len(p): seen.add(j); j = p[j]; l += 1
+        best = max(best, l)
+    return best
+
 def cases_for(strat, n, rng, count):
     """list of (tag, matrix) for one (strategy, size)"""
     out = []
@@ -137,8 +172,19 @@ def cases_for(strat, n, rng, count):
         if strat in PIV:
             pairs = involution(n, rng, rng.randint(1, max(1, n // 3)))
             if n == 1: pairs = []
-            kind = k % 3
-            if kind == 0 or n <= 2:
+            kind = k % 4 if n >= 3 else k % 3
+            if kind == 3:
+                # the pivot permutes >= 3 rows in a cycle: rows of a dominant B moved along sorted cycles; the entry
+                # B(c_{k-1},c_k) has the largest off-diagonal magnitude of its column, so the swap loop returns p
+                p, forced = sorted_cycles(n, rng)
+                if n > 6: B = fam_bdd(n, rng, forced=forced)
+                else:
+                    B = fam_dd(n, rng, -2, 2)
+                    for (a, b) in forced: B[a][b] = rng.choice((-2, 2))
+                    for i in range(n):
+                        B[i][i] = 0; B[i][i] = max(3, sum(abs(x) for x in B[i]) + 1) * rng.choice((-1, 1))
+                out.append(("rpcyc%d" % k, apply_rows(B, p)))
+            elif kind == 0 or n <= 2:
                 # needs pivoting by construction: rows of a diagonally dominant B exchanged pairwise; the entries
                 # B(p,q) have the largest off-diagonal magnitude, so pivot_inplace recovers exactly the exchange
                 B = fam_bdd(n, rng, forced=pairs) if n > 6 else None
@@ -179,24 +225,36 @@ def batched_line(nb, J, tag, rng):
 # plan: translation units of the exact (rational) run.  Compile time grows quickly with n (every block size is
 # its own instantiation of matmul / views), so the quick tier takes all sizes 1..9, every class boundary that is
 # affordable, and one representative of every size class of every dispatcher.
+LAZYV = ["lazy", "lazyadd", "lazysub", "lazymul", "lazymull", "expr", "lazymuleq"]
+
 def rat_plan(tier):
     allS = STRATS
     if tier == "quick":
+        # both sides of every class boundary of every dispatcher: 4|5 and 8|9 for all eight variants; 16|17, 32|33,
+        # 64|65 for the direct / pivoted / triangular dispatchers; 8|9 and 32|33 for the block LU (its classes are
+        # <=8, 9..32, 33..64, >64; 64|65 is in the thorough tier only: minutes of compile time); the lazy and
+        # generic-expression entry points on both sides of 4|5 and at 9
         tus = [
-            [(s, n) for n in (1, 2, 3, 4, 5) for s in allS] + [("batched", (3, J)) for J in (1, 2, 3, 4)],
+            [(s, n) for n in (1, 2, 3, 4, 5) for s in allS] + [("batched", (3, J)) for J in (1, 2, 3, 4)]
+              + [("batched4", (2, 2, J)) for J in (2, 3, 4)] + [("batched", (4, J)) for J in ()],
+            [(s, n) for n in (4, 5) for s in LAZYV + ["utexpr", "lutexpr"]] + [(s, 9) for s in ("lazy", "lazymul", "expr", "utexpr", "lutexpr")],
             [(s, n) for n in (6, 7, 8) for s in allS],
             [(s, n) for n in (9,) for s in allS] + [(s, 12) for s in ("simple", "ut", "lut")],
             [(s, n) for n in (16, 17) for s in ("simple", "simplepiv", "ut", "lut")],
             [(s, 17) for s in ("simplelu", "blocklupiv")] + [(s, 16) for s in ("blocklu", "simplelupiv")],
-            [(s, n) for n in (32, 33) for s in ("simple",)] + [("simplepiv", 33)],
-            [(s, 33) for s in ("ut", "lut")] + [("ut", 32), ("lut", 32)],
-            [("simple", 65)],
+            [(s, n) for n in (32, 33) for s in ("simple", "simplepiv")],
+            [(s, n) for n in (32, 33) for s in ("ut", "lut")],
+            [(s, n) for n in (64, 65) for s in ("simple", "simplepiv")],
+            [(s, n) for n in (64, 65) for s in ("ut", "lut")],
+            [("blocklu", 32), ("blocklu", 33)],
         ]
     else:
         tus = []
         for n in range(1, 21):
             tus.append([(s, n) for s in allS])
-        tus[0] += [("batched", (nb, J)) for J in (1, 2, 3, 4) for nb in (1, 3, 5)]
+        tus[0] += [("batched", (nb, J)) for J in (1, 2, 3, 4) for nb in (1, 3, 4, 5)] + [("batched4", (2, 2, J)) for J in (1, 2, 3, 4)]
+        tus.append([(s, n) for n in (1, 2, 3, 4, 5, 8, 9) for s in LAZYV + ["utexpr", "lutexpr"]])
+        tus.append([(s, n) for n in (16, 17, 33) for s in ("lazy", "lazymul", "expr", "utexpr", "lutexpr")])
         for n in (24, 31, 32, 33, 40, 48):
             tus.append([(s, n) for s in ("simple", "simplepiv")])
             tus.append([(s, n) for s in ("ut", "lut")])
@@ -206,35 +264,43 @@ def rat_plan(tier):
         for n in (64, 65):
             tus.append([("simple", n), ("simplepiv", n)])
             tus.append([("ut", n), ("lut", n)])
-        tus.append([("simplelu", 64)]); tus.append([("blocklu", 65)])
-        tus.append([("simple", 129)])
+            tus.append([("blocklu", n)])
+        tus.append([("simplelu", 64)])
+        tus.append([("simple", 128)]); tus.append([("simple", 129)])
     return tus
 
 def tu_source(pairs):
     regs = []
     for (s, n) in pairs:
         if s == "batched": regs.append("    REG_BATCH(%d, %d);" % n)
+        elif s == "batched4": regs.append("    REG_BATCH4(%d, %d, %d);" % n)
         else: regs.append("    REG_INV(%s, %d);" % (s.upper(), n))
     return '#include "inverse_rat.h"\nint main(int argc, char** argv) {\n%s\n    return c10::run_file(argv[1]);\n}\n' % "\n".join(regs)
 
 def rat_cases(tier, seed, plan):
     rng = random.Random(seed * 7919 + 11)
     lines = []
-    pairs = sorted(set(p for tu in plan for p in tu), key=str)
+    pairs = set()
+    for tu in plan:
+        for (s, n) in tu:
+            if s == "batched4": pairs.add(("batched", (n[0] * n[1], n[2])))
+            else: pairs.add((base_of(s), n))
+    pairs = sorted(pairs, key=str)
     for (s, n) in pairs:
         if s == "batched":
             nb, J = n
             for k in range(2 if tier == "quick" else 5):
                 lines.append(batched_line(nb, J, "b%d" % k, rng))
             continue
-        count = (6 if n <= 9 else 3) if tier == "quick" else (12 if n <= 20 else 4)
+        count = (8 if n <= 9 else 4) if tier == "quick" else (12 if n <= 20 else 4)
         for tag, A in cases_for(s, n, rng, count):
             lines.append(case_line(s, n, tag, A))
     return lines
 
 def short(inp):
     d = symrun.kv(inp)
-    return "strat=%s n=%s%s id=%s" % (d.get("strat"), d.get("n"), (" nb=" + d["nb"]) if "nb" in d else "", d.get("id"))
+    return "strat=%s n=%s%s id=%s%s%s%s" % (d.get("strat"), d.get("n"), (" nb=" + d["nb"]) if "nb" in d else "", d.get("id"),
+                                          (" via=" + d["via"]) if "via" in d else "", (" T=" + d["T"]) if "T" in d else "", (" cfg=" + d["cfg"]) if "cfg" in d else "")
 
 def run_rat(v, tier, seed, wd, plan=None, lines=None, verbose=False):
     plan = plan or rat_plan(tier)
@@ -247,7 +313,7 @@ def run_rat(v, tier, seed, wd, plan=None, lines=None, verbose=False):
     res = core.build_and_run(jobs, wd, timeout=3000)
     stats = {"cases": 0, "defined": 0, "undefined_both": 0, "inconclusive_overflow": 0, "mismatch": 0, "oracle_fail": 0,
              "compile_s": {k: round(r.get("compile_s", 0), 1) for k, r in res.items()}, "wall_s": round(time.time() - t0, 1),
-             "by_strategy": {}, "size_classes": {}, "sizes": {}, "needs_pivot": 0, "split_sensitive": 0}
+             "by_strategy": {}, "size_classes": {}, "sizes": {}, "needs_pivot": 0, "split_sensitive": 0, "pivot_cycle_ge3": 0}
     inputs = []; impl = []
     for name, r in sorted(res.items()):
         if r["rc_compile"] != 0 or r["rc_run"] != 0:
@@ -290,10 +356,12 @@ def run_rat(v, tier, seed, wd, plan=None, lines=None, verbose=False):
                          "broken": "model %s (theorem %s is about it) no longer describes the code" % (MODEL, THEOREM)}, nofail=True)
             continue
         stats["defined"] += 1
-        s = d.get("strat"); n = int(d.get("n"))
+        s = d.get("via", d.get("strat")); n = int(d.get("n"))
+        if s in ("rank3", "rank4"): s = "batched-" + s
+        if "P" in mk and max_cycle(mk["P"]) >= 3: stats["pivot_cycle_ge3"] += 1
         stats["by_strategy"][s] = stats["by_strategy"].get(s, 0) + 1
         stats["sizes"].setdefault(s, set()).add(n)
-        if s != "batched":
+        if not s.startswith("batched"):
             stats["size_classes"].setdefault(s, set()).add(size_class(n))
         tag = d.get("id", "")
         if tag.startswith("rp"): stats["needs_pivot"] += 1
@@ -303,49 +371,176 @@ def run_rat(v, tier, seed, wd, plan=None, lines=None, verbose=False):
     return stats, samples
 
 # ------------------------------------------------------------------------------------------------
-# floating point residual test (per ISA) — a TEST, not a proof
-def real_groups(tier, seed):
+# float / double per ISA:  (1) EXACT runs on integer matrices all of whose divisors are +-2^k (bit-for-bit against the
+# rational model: this is what reaches the SSE/AVX intrinsic leaf kernels), (2) residual TEST against c*n*eps*cond.
+def real_plan(tier):
+    """list of buckets; each bucket = (residual pairs, exact pairs incl. variants and batched)"""
+    if tier == "quick":
+        resid = [(s, n) for n in (2, 3, 4, 5, 8, 9) for s in ("simple", "simplepiv")] + [("simple", 17)]
+        resid += [("simplelu", 3), ("simplelu", 7), ("blocklupiv", 9), ("blocklu", 9), ("simplelupiv", 6)]
+        resid += [(s, n) for n in (4, 9) for s in ("ut", "lut")]
+        # the intrinsic leaf kernels (n = 2, 4; float and double) and what is built from them (5..9), every entry point
+        exact = list(resid) + [(s, n) for n in (1, 2, 3, 4) for s in ("simple", "simplepiv", "ut", "lut")]
+        exact += [(s, n) for n in (6, 7) for s in ("simple", "simplepiv")] + [(s, 3) for s in ("simplelupiv", "blocklu")]
+        exact += [(s, n) for n in (4, 5) for s in ("lazy", "lazyadd", "lazymul", "expr")] + [("lazy", 2), ("lazysub", 4), ("lazymull", 4), ("lazymuleq", 4)]
+        exact += [("utexpr", 4), ("lutexpr", 4)]
+        exact += [("batched", (3, 2)), ("batched", (2, 3)), ("batched", (4, 4)), ("batched4", (2, 2, 2)), ("batched4", (2, 2, 4)), ("batched4", (2, 2, 3))]
+        return [(resid, sorted(set(exact), key=str))]
+    buckets = []
+    for lo, hi in ((1, 5), (6, 9), (10, 12)):
+        resid = [(s, n) for n in range(lo, hi + 1) for s in STRATS]
+        exact = list(resid)
+        if lo == 1:
+            exact += [(s, n) for n in (1, 2, 3, 4, 5) for s in LAZYV + ["utexpr", "lutexpr"]]
+            exact += [("batched", (nb, J)) for J in (1, 2, 3, 4) for nb in (3, 4)] + [("batched4", (2, 2, J)) for J in (1, 2, 3, 4)]
+        if lo == 6: exact += [(s, n) for n in (8, 9) for s in LAZYV + ["utexpr", "lutexpr"]]
+        buckets.append((resid, exact))
+    # larger sizes: only on the ISAs of the quick tier (marked by the third component)
+    buckets.append(([(s, n) for n in (16, 17) for s in STRATS], [(s, n) for n in (16, 17) for s in STRATS + ["lazy"]], "main-isas"))
+    buckets.append(([(s, n) for n in (32, 33) for s in ("simple", "simplepiv", "ut", "lut")],
+                    [(s, n) for n in (32, 33) for s in ("simple", "simplepiv", "ut", "lut", "lazy")], "main-isas"))
+    buckets.append(([("simple", 64), ("simple", 65), ("simplepiv", 65)], [("simple", 64), ("simple", 65), ("simplepiv", 65), ("ut", 65), ("lut", 65)], "main-isas"))
+    return buckets
+
+def exact_real_cases(tier, seed, buckets):
+    """candidate integer matrices whose divisors are +-2^k; the model (fmodel) filters: DEF=1, DY=1, few bits.
+    returns (lines, model_by_line)"""
+    rng = random.Random(seed * 15485863 + 7)
+    pairs = set()
+    for bk in buckets:
+        for (s, n) in bk[1]:
+            if s == "batched": pairs.add(("batched", n))
+            elif s == "batched4": pairs.add(("batched", (n[0] * n[1], n[2])))
+            else: pairs.add((base_of(s), n))
+    cand = []
+    want = 4 if tier == "quick" else 6
+    for (s, n) in sorted(pairs, key=str):
+        if s == "batched":
+            nb, J = n
+            for k in range(want):
+                flat = []
+                for b in range(nb):
+                    A = fam_ldu(J, [J], rng, dens=3.0)
+                    if rng.random() < 0.5: A = [[2 * x for x in A[0]]] + A[1:]
+                    flat += [x for row in A for x in row]
+                cand.append(("batched", n, "inv strat=batched n=%d nb=%d id=xb%d a=%s" % (J, nb, k, ",".join(map(str, flat)))))
+            continue
+        leaves = [1] * n if s in LU else leaf_sizes(n)
+        tries = want if s not in PIV else 12 * want
+        for k in range(tries):
+            if s == "ut": A = fam_ut(n, rng)
+            elif s == "lut": A = fam_lut(n, rng)
+            else:
+                A = fam_ldu(n, leaves, rng, dens=3.0 if n <= 9 else 2.0)
+                if rng.random() < 0.4:      # a row scaled by 2: determinants +-2 instead of +-1
+                    r = rng.randrange(n); A[r] = [2 * x for x in A[r]]
+                if s in PIV and n >= 2:
+                    if n >= 3 and k % 2 == 0: p, _ = sorted_cycles(n, rng)
+                    else:
+                        p = list(range(n))
+                        for (a, b) in involution(n, rng, rng.randint(1, max(1, n // 3))): p[a], p[b] = b, a
+                    A = apply_rows(A, p)
+            cand.append((s, n, case_line(s, n, "x%s%d" % (s[:2], k), A)))
+    model = core.fmodel([c[2] for c in cand]) if cand else []
+    keep = {}; per = {}
+    for (s, n, line), mo in zip(cand, model):
+        mk = symrun.kv(mo)
+        # float has 24 mantissa bits: products of two partial inverses summed over n terms must stay exact
+        # (2*XBITS + log2 n <= 24); the same cases are used for double
+        if mk.get("DEF") != "1" or mk.get("DY") != "1" or int(mk.get("XBITS", "99")) > (10 if (n if isinstance(n, int) else n[1]) <= 9 else 8): continue
+        if s in PIV and "P" in mk and max_cycle(mk["P"]) < 2 and n >= 2: continue     # the pivot must really permute
+        if per.get((s, n), 0) >= want: continue
+        per[(s, n)] = per.get((s, n), 0) + 1
+        keep[line] = mo
+    return list(keep.keys()), keep
+
+def real_groups(tier, seed, cfile):
     isas = core.QUICK_ISAS if tier == "quick" else core.ALL_ISAS
     rng = random.Random(seed * 104729 + 5)
     groups = []
-    S = {"simple": "SIMPLE", "simplepiv": "SIMPLEPIV", "simplelu": "SIMPLELU", "simplelupiv": "SIMPLELUPIV",
-         "blocklu": "BLOCKLU", "blocklupiv": "BLOCKLUPIV", "ut": "UT", "lut": "LUT"}
+    buckets = real_plan(tier)
     for isa in isas:
         for t in ("float", "double"):
-            calls = []
-            if tier == "quick":
-                sizes = [(s, n) for n in (2, 3, 4, 5, 8, 9) for s in ("simple", "simplepiv")] + [("simple", 17)]
-                sizes += [("simplelu", 3), ("simplelu", 7), ("blocklupiv", 9), ("blocklu", 9), ("simplelupiv", 6)]
-                sizes += [(s, n) for n in (4, 9) for s in ("ut", "lut")]
-            else:
-                sizes = [(s, n) for n in list(range(1, 21)) + [32, 33] for s in STRATS] + [("simple", 64), ("simple", 65), ("simplepiv", 65)]
-            for (s, n) in sizes:
-                # family 1 (symmetric positive definite, prescribed condition number) keeps every leading block and Schur
-                # complement well conditioned only WITHOUT row exchanges: Fastor's pivot vector (column maxima of the
-                # original matrix) can turn it into a matrix with badly conditioned leading blocks, which is outside the
-                # property's hypothesis — pivoted strategies get the families whose pre-pivoted form is dominant
-                fams = (0, 2) if s in PIV else ((0, 1) if s not in ("ut", "lut") else (0,))
-                for f in fams:
-                    calls.append("run_real<%s,c10r::%s,%d>(%d,%du);" % (t, S[s], n, f, rng.randrange(1, 1 << 30)))
-            if tier != "quick" or True:
-                calls += ["run_real_batched<%s,%d,%d>(%du);" % (t, nb, J, rng.randrange(1, 1 << 30)) for (nb, J) in ((3, 2), (2, 3), (4, 4))]
-            groups.append({"key": "%s/%s" % (isa, t), "header": "inverse_real.h", "isa": isa, "opt": "-O2", "calls": calls,
-                           "pre": "static bool g_verbose=false;"})
+            for bi, bk in enumerate(buckets):
+                resid, exact = bk[0], bk[1]
+                if len(bk) > 2 and isa not in core.QUICK_ISAS: continue
+                calls = []
+                for (s, n) in resid:
+                    # family 1 (symmetric positive definite, prescribed condition number) keeps every leading block and Schur
+                    # complement well conditioned only WITHOUT row exchanges: Fastor's pivot vector (column maxima of the
+                    # original matrix) can turn it into a matrix with badly conditioned leading blocks, which is outside the
+                    # property's hypothesis — pivoted strategies get the families whose pre-pivoted form is dominant
+                    fams = (0, 2) if s in PIV else ((0, 1) if s not in ("ut", "lut") else (0,))
+                    for f in fams:
+                        calls.append("run_real<%s,c10r::%s,%d>(%d,%du);" % (t, s.upper(), n, f, rng.randrange(1, 1 << 30)))
+                if bi == 0:
+                    calls += ["run_real_batched<%s,%d,%d>(%du);" % (t, nb, J, rng.randrange(1, 1 << 30)) for (nb, J) in ((3, 2), (2, 3), (4, 4))]
+                for (s, n) in exact:
+                    if s == "batched": calls.append("REG_XB(%s, %d, %d);" % ((t,) + n))
+                    elif s == "batched4": calls.append("REG_XB4(%s, %d, %d, %d);" % ((t,) + n))
+                    else: calls.append("REG_X(%s, %s, %d);" % (t, s.upper(), n))
+                calls.append('c10r::run_exact_file("%s");' % cfile)
+                groups.append({"key": "%s/%s%s" % (isa, t, ("/b%d" % bi) if len(buckets) > 1 else ""), "header": "inverse_real.h", "isa": isa,
+                               "opt": "-O2", "calls": calls, "pre": "static bool g_verbose=false;"})
     return groups
 
-def run_real(v, tier, seed, wd):
-    from vlib import flow
-    groups = real_groups(tier, seed)
-    n, fails, infra, samples = flow.run_oracle_groups(groups, wd, per_tu=(400 if tier == "quick" else 40))
-    flow.report_infra(v, infra)
-    worst = {}
-    for g in groups: pass
-    for g, line, call in fails:
-        v.violation("real " + line.split("|")[0].strip(),
-                    {"kind": "real-oracle", "group": g["key"], "isa": g["isa"], "opt": g.get("opt", "-O2"), "header": g["header"],
-                     "pre": g.get("pre", ""), "line": line, "call": call,
-                     "note": "floating-point residual above c*n*eps*cond (test, not proof)"})
-    return n, len(fails), samples, sorted(set(g["key"] for g in groups))
+def run_real(v, tier, seed, wd, only=None):
+    buckets = real_plan(tier)
+    xlines, xmodel = exact_real_cases(tier, seed, buckets)
+    cfile = os.path.join(wd, "exact_cases.txt")
+    with open(cfile, "w") as fh:
+        fh.write("\n".join(xlines) + "\n")
+    groups = real_groups(tier, seed, cfile)
+    if only: groups = [g for g in groups if only in g["key"]]
+    res = symrun.run_groups(groups, wd, per_tu=100000, bisect=False)
+    st = {"residual_cases": 0, "residual_failures": 0, "worst_ratio": 0.0, "exact_candidates_kept": len(xlines), "exact_cases": 0,
+          "exact_failures": 0, "exact_by_variant": {}, "exact_pivot_cycle_ge3": 0, "configs": sorted(set(g["key"] for g in groups)),
+          "compile_s": {}}
+    samples = []
+    for r in res:
+        rr = r["res"]; g = r["group"]
+        st["compile_s"][g["key"]] = round(rr.get("compile_s", 0), 1)
+        if rr["rc_compile"] != 0 or rr["rc_run"] != 0:
+            v.violation("harness-failure real %s" % g["key"], {"kind": "harness-failure", "what": "compile" if rr["rc_compile"] else "run rc=%s" % rr["rc_run"],
+                        "out": (rr["compile_out"][-3000:] if rr["rc_compile"] else (rr.get("out", "")[-500:] + rr.get("err", "")[-1000:]))}, nofail=True)
+            continue
+        for line in rr["out"].split("\n"):
+            if " | " not in line: continue
+            inp, obs = line.split(" | ", 1)
+            if inp.startswith("real "):
+                st["residual_cases"] += 1
+                m = [t for t in obs.split() if t.startswith("ratio=")]
+                if m:
+                    try: st["worst_ratio"] = max(st["worst_ratio"], float(m[0][6:]))
+                    except ValueError: pass
+                if len(samples) < 2: samples.append(line)
+                if not obs.startswith("ok"):
+                    st["residual_failures"] += 1
+                    call = None
+                    d = symrun.kv(inp)
+                    if d.get("strat") != "batched":
+                        call = "run_real<%s,c10r::%s,%s>(%s,%su);" % (d["T"], d["strat"].upper(), d["n"], d["fam"], d["seed"])
+                    v.violation("real " + inp.strip(), {"kind": "real-oracle", "group": g["key"], "isa": g["isa"], "opt": "-O2", "header": g["header"],
+                                "pre": g.get("pre", ""), "line": line, "call": call, "note": "floating-point residual above c*n*eps*cond (test, not proof)"})
+                continue
+            # exact line
+            base = inp[:inp.index(" via=")]
+            mo = xmodel.get(base)
+            if mo is None: continue
+            io = symrun.kv(obs); mk = symrun.kv(mo); d = symrun.kv(inp)
+            st["exact_cases"] += 1
+            via = d.get("via", "?")
+            st["exact_by_variant"][via] = st["exact_by_variant"].get(via, 0) + 1
+            if "P" in mk and max_cycle(mk["P"]) >= 3: st["exact_pivot_cycle_ge3"] += 1
+            if len(samples) < 4 and via in ("simple", "lazy"): samples.append(short(inp) + " | " + obs + " | model " + mo)
+            bad = [k for k in ("X", "P") if k in mk and k in io and io[k] != mk[k]]
+            if io.get("ORACLE") != "ok" or bad:
+                st["exact_failures"] += 1
+                v.violation("real-exact " + short(inp), {"kind": "real-exact", "line": base, "via": via, "T": d.get("T"), "isa": g["isa"],
+                            "impl": obs, "model": mo, "fields": bad,
+                            "note": "float/double run that is exact by construction (every divisor is +-2^k, all values are small dyadic rationals): "
+                                    "the result differs from the exact inverse" + ("" if io.get("ORACLE") == "ok" else " and %s != I" % io.get("ORACLE"))})
+    return st, samples
 
 # ------------------------------------------------------------------------------------------------
 def run(tier, seed):
@@ -365,20 +560,20 @@ def run(tier, seed):
         return v.finish()
     with core.Scratch() as wd:
         stats, samples = run_rat(v, tier, seed, wd)
-        nreal, nrfail, rsamples, rkeys = run_real(v, tier, seed, wd) if os.path.exists(os.path.join(core.VERIF, "harness", "inverse_real.h")) else (0, 0, [], [])
+        rst, rsamples = run_real(v, tier, seed, wd)
     if not ok:
         v.violation("audit " + "; ".join(info.get("problems", []))[:200], {"kind": "audit", "detail": info.get("problems")}, nofail=True)
     if stats["cases"] and stats["inconclusive_overflow"] * 5 > stats["cases"]:
         v.notes.append("more than 20%% of the exact cases left the safe range of the rational carrier (%d of %d)" % (stats["inconclusive_overflow"], stats["cases"]))
     v.cov.update({
-        "evaluations": stats["cases"] + nreal,
-        "distinct_nontrivial": stats["defined"],
+        "evaluations": stats["cases"] + rst["residual_cases"] + rst["exact_cases"],
+        "distinct_nontrivial": stats["defined"] + rst["exact_cases"] - rst["exact_failures"],
         "rule": "exact cases: (strategy, n, integer matrix) run through the real templates over the rational carrier and through the Lean model; "
                 "non-trivial = the strategy is defined on the matrix (model and code agree on DEF=1), X digests equal, divisor sequence equal, "
                 "pivot vector equal, X*A == I and A*X == I exactly.  real cases: float/double residual test per ISA",
-        "samples": samples + rsamples, "exact": stats, "real_cases": nreal, "real_failures": nrfail, "real_configs": rkeys,
+        "samples": samples + rsamples, "exact": stats, "real": rst,
         "route_hits": {"size-class " + s + " " + c: 1 for s, cs in stats["size_classes"].items() for c in cs},
-        "configs": ["rat/sse2/-O0"] + rkeys,
+        "configs": ["rat/sse2/-O0"] + rst["configs"],
         "not_proved": "the floating-point bound ||AX-I|| <= c*n*eps*cond(A) is measured (test); LU factorisation itself is C11",
     })
     return v.finish()
@@ -389,14 +584,43 @@ def replay(path):
     kind = obj.get("kind")
     if kind in ("rat-oracle", "correspondence") and "line" in obj:
         d = symrun.kv(obj["line"])
-        s = d["strat"]; n = int(d["n"])
-        pair = ("batched", (int(d["nb"]), n)) if s == "batched" else (s, n)
+        s = d["strat"]; n = int(d["n"]); via = d.get("via", s)
+        if s == "batched":
+            nb = int(d["nb"])
+            pair = ("batched4", (2, nb // 2, n)) if via == "rank4" and nb % 2 == 0 else ("batched", (nb, n))
+        else:
+            pair = (via, n)
+        line = obj["line"].split(" via=")[0]
         v = core.Verdict(PID + "-replay", "quick", 0)
         with core.Scratch() as wd:
-            stats, _ = run_rat(v, "quick", 0, wd, plan=[[pair]], lines=[obj["line"]], verbose=True)
+            stats, _ = run_rat(v, "quick", 0, wd, plan=[[pair]], lines=[line], verbose=True)
         bad = len(v.violations)
         print("replay:", "FAIL" if bad else "ok", stats["cases"], "case(s)")
         return 1 if bad else 0
+    if kind == "real-exact" and "line" in obj:
+        d = symrun.kv(obj["line"]); s = d["strat"]; n = int(d["n"]); via = obj.get("via", s); t = obj.get("T", "float")
+        if s == "batched":
+            nb = int(d["nb"])
+            reg = ("REG_XB4(%s, 2, %d, %d);" % (t, nb // 2, n)) if via == "rank4" else ("REG_XB(%s, %d, %d);" % (t, nb, n))
+        else:
+            reg = "REG_X(%s, %s, %d);" % (t, via.upper(), n)
+        with core.Scratch() as wd:
+            cfile = os.path.join(wd, "exact_cases.txt")
+            open(cfile, "w").write(obj["line"] + "\n")
+            g = {"key": "replay", "header": "inverse_real.h", "isa": obj.get("isa", "sse2"), "opt": "-O2", "pre": "static bool g_verbose=false;",
+                 "calls": [reg, 'c10r::run_exact_file("%s");' % cfile]}
+            res = symrun.run_groups([g], wd, per_tu=1000, bisect=False)
+            mo = core.fmodel([obj["line"]])[0]
+            bad = True
+            for r in res:
+                out = r["res"]["compile_out"][-2000:] if r["res"]["rc_compile"] else r["res"]["out"]
+                for l in out.split("\n"):
+                    if " | " in l:
+                        io = symrun.kv(l.split(" | ", 1)[1]); mk = symrun.kv(mo)
+                        print("impl :", l.split(" | ", 1)[1]); print("model:", mo)
+                        bad = io.get("ORACLE") != "ok" or any(k in io and io[k] != mk[k] for k in ("X", "P") if k in mk)
+            print("replay:", "FAIL" if bad else "ok")
+            return 1 if bad else 0
     if kind == "real-oracle":
         from vlib import flow
         return flow.standard_replay(path)
